@@ -512,6 +512,21 @@ def run_job(spec):
         # wall-clock budget per job (a changed tree must not be able to make a check run for ever): exceeded => the job is
         # reported as not exhausted (engine error, exit 2), never as success
         I.deadline = time.time() + float(job.get("budget_s") or os.environ.get("PSX_JOB_BUDGET_S") or (900 if tier == "quick" else 5400))
+        # watchdog: z3 does not always honour its own timeout (some preprocessing of div/mod-heavy terms does not); past the job's
+        # deadline a thread interrupts the solver context every few seconds, so that a query comes back `unknown` (-> inconclusive,
+        # exit 2) instead of hanging the check
+        import threading
+        import z3 as _z3
+        finished = threading.Event()
+
+        def _watchdog(deadline=I.deadline + 60):
+            while not finished.wait(5):
+                if time.time() > deadline:
+                    try:
+                        _z3.main_ctx().interrupt()
+                    except Exception:
+                        pass
+        threading.Thread(target=_watchdog, daemon=True).start()
         ctx = JobContext(prop, modname, job["harness"], job.get("params", {}), load_known(prop),
                          validate_every=job.get("validate_every", 25))
         ctx.I = I
@@ -532,6 +547,7 @@ def run_job(spec):
         import shutil
         for d in ctx.scratch:
             shutil.rmtree(d, True)
+        finished.set()
         res = ctx.result()
         if I.budget_exhausted:
             res["path_reasons"]["inconclusive: the job's wall-clock budget was exhausted before every path was explored"] = 1
@@ -539,6 +555,10 @@ def run_job(spec):
         res["wall_s"] = round(time.time() - t0, 2)
         return res
     except BaseException as e:
+        try:
+            finished.set()
+        except NameError:
+            pass
         return {"harness": job.get("harness"), "params": job.get("params", {}), "crash": "%s: %s\n%s" % (type(e).__name__, e, traceback.format_exc()[-3000:]),
                 "wall_s": round(time.time() - t0, 2)}
 
